@@ -316,3 +316,48 @@ func TestC04Hostile(t *testing.T) {
 		}
 	})
 }
+
+// TestC04SessionWrite: a session's Write is admitted only while fewer than a
+// send window of segments are pending, and otherwise blocks. The oracle lives
+// in sim.Pair (every Write is checked against the state at its issue); here
+// small send windows and large writes make writers block often. The session's
+// own occupancy limits (two dialled ends, windows set before traffic) are
+// checked at every read.
+func TestC04SessionWrite(t *testing.T) {
+	rec := hx.NewRecorder(t)
+	rapid.Check(t, func(rt *rapid.T) {
+		cfg := drawPairCfg(rt, pairGenOpts{ForceDialed: true, Ciphers: []string{"null", "aes-128", "salsa20", "aes-256-gcm"}})
+		for e := 0; e < 2; e++ {
+			cfg.Opts[e].SndWnd = rapid.SampledFrom([]int{1, 2, 3, 4, 8}).Draw(rt, "sndwnd")
+		}
+		fs := sim.DrawFateScript(rt, sim.FateOpts{MaxExplicit: 8, MaxRegimes: 2, MaxRegLen: 80, MaxDelay: 300, MaxLossPm: 200})
+		app := drawSessApps(rt, pairMSS(cfg), 25, 80_000)
+		blockedWrites := 0
+		rapid.SyncTest(rt, func(rt *rapid.T) {
+			s := sim.NewSessSim(cfg.ClockOff, cfg.EntropySeed)
+			p, err := sim.NewPair(s, cfg, app)
+			if err != nil {
+				rt.Fatalf("setup: %v", err)
+			}
+			defer p.Finish(nil)
+			setPairLinks(s, p, fs)
+			p.OnRead = func(r, n int, err error) {
+				for e := 0; e < 2; e++ {
+					if err := sessionLimits(p.Sess[e]); err != nil {
+						s.Fail("end %d: %v", e, err)
+					}
+					if !p.Sess[e].VerifWritable() {
+						blockedWrites++
+					}
+				}
+			}
+			if err := p.Run(fs.EndTime()+300_000, false); err != nil {
+				rt.Fatalf("C04 (session): %v\ncase: %+v", err, describePair(cfg, fs, app))
+			}
+		})
+		rec.Case(hx.Hash64(describePair(cfg, fs, app)), blockedWrites > 0, "session_write_cases")
+		if rec.WantSample() {
+			rec.Sample(describePair(cfg, fs, app))
+		}
+	})
+}
